@@ -137,30 +137,44 @@ def r1_ssa_lowering(rule, root=None):
     for u in unary:
         if u not in seen:
             rule.bad("unary|%s|missing" % u, "no lowering arm for UnaryOpcode::%s" % u, A.where(fn, ms[0]))
-    # choice_count is bumped for exactly the choice opcodes
-    bumps = [
-        i
-        for i in A.find(fn["body"], "If")
-        if A.strip(i["cond"]).get("k") == "Macro"
-        and A.strip(i["cond"])["name"] == "matches"
-        and any(A.unparse(s).startswith("(choice_count += ") or "choice_count +=" in A.unparse(s) for s in i["then"]["stmts"])
-    ]
-    if len(bumps) != 1:
-        raise A.AnchorLost("`if matches!(op, Min|Max|And|Or) { choice_count += 1 }` in SsaTape::new")
-    pat = A.strip(bumps[0]["cond"]).get("pat")
-    got = set()
-    for p in A.flatten_or(pat):
-        segs, _ = A.pat_variant(p)
-        got.add(segs[-1] if segs else "?")
+    # choice_count is bumped for exactly the choice opcodes.  A bump site is a
+    # `choice_count += k` statement guarded by `if matches!(op, A | B ..)` or sitting
+    # in an arm of a match over BinaryOpcode (either idiom; the guard gives the set).
+    def is_bump(n):
+        return n.get("k") == "Binary" and n.get("op") == "+=" and A.ident(A.strip(n["left"])) == "choice_count"
+
+    def bumps_in(node):
+        return [n for n in A.walk(node) if is_bump(n)]
+
+    sites = []  # (variants, bump nodes, where)
+    for i in A.find(fn["body"], "If"):
+        c = A.strip(i["cond"])
+        if c.get("k") == "Macro" and c["name"] == "matches" and bumps_in(i["then"]):
+            vs = []
+            for p in A.flatten_or(c.get("pat")):
+                segs, _ = A.pat_variant(p)
+                vs.append(segs[-1] if segs and segs[0] == "BinaryOpcode" else "?")
+            sites.append((vs, bumps_in(i["then"]), i))
+    for mm in O.match_on(fn, "BinaryOpcode", min_arms=1):
+        for variant, _s, arm in O.arms_by_variant(mm, "BinaryOpcode"):
+            b = bumps_in(arm["body"])
+            if b:
+                sites.append(([variant if variant else "?"], b, arm))
+    all_bumps = bumps_in(fn["body"])
+    if not sites or sum(len(b) for _v, b, _w in sites) < len(all_bumps):
+        raise A.AnchorLost("`choice_count += 1` guarded by `matches!(op, Min|Max|And|Or)` or by BinaryOpcode match arms in SsaTape::new")
+    got = []
+    for vs, bs, w in sites:
+        got += vs * len(bs)
+        for b in bs:
+            if A.lit_value(b["right"]) != 1:
+                rule.bad("choice_count|step", "choice_count increment is `%s`" % A.unparse(b), A.where(fn, w))
     has_choice = ssa_has_choice(root)
     want = {T.split_variant(v)[0] for v in has_choice}
-    if got != want:
-        rule.bad("choice_count", "choice_count is bumped for %s but SsaOp::has_choice is true for %s" % (sorted(got), sorted(want)), A.where(fn, bumps[0]))
+    if set(got) != want or len(got) != len(set(got)):
+        rule.bad("choice_count", "choice_count is bumped for %s but SsaOp::has_choice is true for %s" % (sorted(got), sorted(want)), A.where(fn, sites[0][2]))
     else:
         rule.ok("choice_count bumped for %s" % sorted(got))
-    inc = [s for s in bumps[0]["then"]["stmts"] if "choice_count" in A.unparse(s)]
-    if A.ftxt(inc[0]) != "(choice_count+=1);":
-        rule.bad("choice_count|step", "choice_count increment is `%s`" % A.unparse(inc[0]), A.where(fn, bumps[0]))
 
 
 def ssa_has_choice(root=None):
